@@ -20,7 +20,7 @@ PROPS["C16"] = {
              "non-trivial = k structured (not plain uniform) or unreduced, or d0/d1 negative, or A/C carrying torsion; primitive-operation cases all count; "
              "distinct = FNV-64 of the serialised case"),
     "assumptions": ["math/big is correct", "verifref curve arithmetic is correct (validated against RFC 8032 constants and the affine addition law)",
-                    "non-termination is detected by a 60 s watchdog on a microsecond-scale function"],
+                    "non-termination is detected by a budget of 30 seconds of CPU time (getrusage, not wall clock) on a microsecond-scale function; the case is then reported without shrinking"],
     "units": [
         {"pkg": "internal/lattice", "configs": {"quick": ["default", "force32bit"], "thorough": ["default", "purego", "force32bit"]},
          "tests": {
